@@ -251,3 +251,165 @@ Theorem C02_src_registry_countTests_spec :
   src_registry_countTests fuel h rs (HPtr br Z0) = FOk (BinInt.Z.of_nat (length bs), h, rs).
 Proof. exact src_registry_countTests_spec. Qed.
 Print Assumptions C02_src_registry_countTests_spec.
+
+(* --------------------------------------------------------------------------------------------------------------
+   THE TRANSLATED SOURCE of TestRegistry::runAllTests / testShouldRun / endOfGroup (gen/Gen_HeapC02R.v, regenerated by tools/cxx2heap.py on every run) performs the walk of the model's run_loop: every registered test considered exactly once, in list order, counters exact, group events alternating
+   -------------------------------------------------------------------------------------------------------------- *)
+From CppUVerif Require Import lib.CSem lib.CMem lib.CHeap gen.Gen_HeapC02R C02_HeapTie C02_RunTie.
+Local Open Scope Z_scope.
+Theorem C02_layout_agrees_with_HeapC02 :
+  off_UtestShell_next_ = Gen_HeapC02.off_UtestShell_next_ /\
+  cells_UtestShell = Gen_HeapC02.cells_UtestShell /\
+  off_TestRegistry_tests_ = Gen_HeapC02.off_TestRegistry_tests_.
+Proof. exact layout_agrees_with_HeapC02. Qed.
+Print Assumptions C02_layout_agrees_with_HeapC02.
+
+Theorem C02_src_registry_testShouldRun_spec :
+  forall (fuel0 : nat) (h : heap) (evs : list rev) (shs : list Z) (this test : hptr) (sr : bool),
+  src_registry_testShouldRun fuel0 h evs (b2z sr :: shs) this test =
+  FOk (b2z sr, h, if sr then evs else evs ++ [RFilteredOut], shs).
+Proof. exact src_registry_testShouldRun_spec. Qed.
+Print Assumptions C02_src_registry_testShouldRun_spec.
+
+Theorem C02_src_registry_endOfGroup_spec :
+  forall (gcode : list N -> Z) (fuel0 : nat) (h : heap) (evs : list rev) (shs : list Z)
+  (this : hptr) (b : nat) (bs : list nat) (t : test) (ts : list test),
+  tchain h (HPtr b Z0) (b :: bs) ->
+  Forall2 (grp_at gcode h) (b :: bs) (t :: ts) ->
+  gcode_ok gcode (map t_group (t :: ts)) ->
+  src_registry_endOfGroup fuel0 h evs shs this (HPtr b Z0) = FOk (b2z (end_of_group t ts), h, evs, shs).
+Proof. exact src_registry_endOfGroup_spec. Qed.
+Print Assumptions C02_src_registry_endOfGroup_spec.
+
+Theorem C02_src_registry_runAllTests_loop_spec :
+  forall (gf nf : list tfilter) (gcode : list N -> Z) (rb : nat) (plug : Z) (sep ri : bool)
+  (fuel0 : nat) (ts : list test) (bs : list nat) (h : heap) (fuel : nat) (evs : list rev)
+  (rest : list Z) (gs : bool) (p : hptr),
+  reg_cells h rb plug sep ri ->
+  tchain h p bs ->
+  Forall (shell7 h) bs ->
+  Forall2 (grp_at gcode h) bs ts ->
+  gcode_ok gcode (map t_group ts) ->
+  (length ts < fuel)%nat ->
+  exists g : Z,
+  src_registry_runAllTests_loop1 fuel0 fuel (HPtr rb Z0) h evs
+  (map (fun t : test => b2z (should_run gf nf t)) ts ++ rest) (b2z gs) p =
+  Go (mark_all sep h bs, evs ++ rev_loop gf nf ri plug bs ts gs, rest, g, HNull).
+Proof. exact src_registry_runAllTests_loop_spec. Qed.
+Print Assumptions C02_src_registry_runAllTests_loop_spec.
+
+Theorem C02_src_registry_runAllTests_spec :
+  forall (gf nf : list tfilter) (gcode : list N -> Z) (fuel : nat) (h : heap) (rb : nat)
+  (bs : list nat) (ts : list test) (plug : Z) (sep ri : bool) (rep : Z) (evs0 : list rev)
+  (rest : list Z),
+  reg_at h rb bs ts gcode plug sep ri rep ->
+  gcode_ok gcode (map t_group ts) ->
+  (length ts < fuel)%nat ->
+  BinInt.Z.le (BinInt.Z.opp (BinInt.Z.pow (Zpos 2) (Zpos 31))) rep ->
+  BinInt.Z.lt (BinInt.Z.add rep (Zpos 1)) (BinInt.Z.pow (Zpos 2) (Zpos 31)) ->
+  let h' := after_run sep h rb bs rep in
+  let E := rev_all gf nf ri plug bs ts in
+  src_registry_runAllTests fuel h evs0 (map (fun t : test => b2z (should_run gf nf t)) ts ++ rest) (HPtr rb Z0) =
+  FOk (tt, h', evs0 ++ E, rest) /\
+  abs_run ri (combine bs ts) E cnt0 = Some (run_all_tests gf nf ri ts) /\
+  reg_at h' rb bs ts gcode plug sep ri (BinInt.Z.add rep (Zpos 1)) /\
+  length h' = length h /\
+  hblock h' rb = upd (hblock h rb) 5 (VInt (BinInt.Z.add rep (Zpos 1))) /\
+  (forall b : nat, In b bs -> hblock h' b = (if sep then upd (hblock h b) 5 (VInt (Zpos 1)) else hblock h b)) /\
+  (forall b : nat, b <> rb -> ~ In b bs -> hblock h' b = hblock h b).
+Proof. exact src_registry_runAllTests_spec. Qed.
+Print Assumptions C02_src_registry_runAllTests_spec.
+
+Theorem C02_abs_rev_all :
+  forall (gf nf : list tfilter) (ri : bool) (plug : Z) (bs : list nat) (ts : list test),
+  NoDup bs ->
+  length bs = length ts ->
+  abs_run ri (combine bs ts) (rev_all gf nf ri plug bs ts) cnt0 = Some (run_all_tests gf nf ri ts).
+Proof. exact abs_rev_all. Qed.
+Print Assumptions C02_abs_rev_all.
+
+Theorem C02_abs_rev_all_m :
+  forall (gf nf : list tfilter) (ri : bool) (plug : Z) (bs : list nat) (ts : list test),
+  NoDup bs ->
+  length bs = length ts ->
+  exists ms' : list hptr,
+  abs_run_m (combine bs ts) (rev_all gf nf ri plug bs ts) (cnt0, []) =
+  Some (fst (run_all_tests gf nf ri ts), (snd (run_all_tests gf nf ri ts), ms')).
+Proof. exact abs_rev_all_m. Qed.
+Print Assumptions C02_abs_rev_all_m.
+
+Theorem C02_src_runAllTests_meets_C02 :
+  forall (s : scenario) (reg : list test) (gcode : list N -> Z) (fuel : nat) (h : heap)
+  (rb : nat) (bs : list nat) (plug : Z) (sep : bool) (rep : Z) (evs0 : list rev) (rest : list Z)
+  (seeds drawn : list N),
+  valid s = true ->
+  Permutation reg (s_tests s) ->
+  (s_shuffle s = false -> map t_id reg = expected_order s) ->
+  reg_at h rb bs reg gcode plug sep (s_ri s) rep ->
+  gcode_ok gcode (map t_group reg) ->
+  (length reg < fuel)%nat ->
+  BinInt.Z.le (BinInt.Z.opp (BinInt.Z.pow (Zpos 2) (Zpos 31))) rep ->
+  BinInt.Z.lt (BinInt.Z.add rep (Zpos 1)) (BinInt.Z.pow (Zpos 2) (Zpos 31)) ->
+  exists (E : list rev) (w : list event) (k : counters),
+  src_registry_runAllTests fuel h evs0
+  (map (fun t : test => b2z (should_run (s_gf s) (s_nf s) t)) reg ++ rest) (HPtr rb Z0) =
+  FOk (tt, after_run sep h rb bs rep, evs0 ++ E, rest) /\
+  abs_run (s_ri s) (combine bs reg) E cnt0 = Some (w, k) /\
+  rep_ok s {| r_order := map t_id reg; r_srand := seeds; r_rands := drawn; r_word := w; r_cnt := k |} = true.
+Proof. exact src_runAllTests_meets_C02. Qed.
+Print Assumptions C02_src_runAllTests_meets_C02.
+
+Theorem C02_run_ones_in_order :
+  forall (gf nf : list tfilter) (ri : bool) (plug : Z) (bs : list nat) (ts : list test),
+  filter is_run (rev_all gf nf ri plug bs ts) =
+  map (fun bt : nat * test => RRunOne (HPtr (fst bt) Z0) plug)
+  (filter (fun bt : nat * test => should_run gf nf (snd bt)) (combine bs ts)).
+Proof. exact run_ones_in_order. Qed.
+Print Assumptions C02_run_ones_in_order.
+
+Theorem C02_run_one_exactly_once :
+  forall (gf nf : list tfilter) (ri : bool) (plug : Z) (bs : list nat) (ts : list test) (i b : nat) (t : test),
+  NoDup bs ->
+  nth_error bs i = Some b ->
+  nth_error ts i = Some t ->
+  count_occ rev_eq_dec (rev_all gf nf ri plug bs ts) (RRunOne (HPtr b Z0) plug) =
+  (if should_run gf nf t then 1%nat else 0%nat).
+Proof. exact run_one_exactly_once. Qed.
+Print Assumptions C02_run_one_exactly_once.
+
+Theorem C02_run_one_only_selected :
+  forall (gf nf : list tfilter) (ri : bool) (plug : Z) (bs : list nat) (ts : list test) (p : hptr) (z : Z),
+  In (RRunOne p z) (rev_all gf nf ri plug bs ts) ->
+  z = plug /\
+  (exists (i b : nat) (t : test),
+  nth_error bs i = Some b /\ nth_error ts i = Some t /\ p = HPtr b Z0 /\ should_run gf nf t = true).
+Proof. exact run_one_only_selected. Qed.
+Print Assumptions C02_run_one_only_selected.
+
+Theorem C02_count_tests_exact :
+  forall (gf nf : list tfilter) (ri : bool) (plug : Z) (bs : list nat) (ts : list test),
+  length bs = length ts -> count_occ rev_eq_dec (rev_all gf nf ri plug bs ts) RCountTest = length ts.
+Proof. exact count_tests_exact. Qed.
+Print Assumptions C02_count_tests_exact.
+
+Theorem C02_groups_alternate :
+  forall (gf nf : list tfilter) (ri : bool) (plug : Z) (bs : list nat) (ts : list test),
+  length bs = length ts -> galt false (rev_all gf nf ri plug bs ts) = true.
+Proof. exact groups_alternate. Qed.
+Print Assumptions C02_groups_alternate.
+
+Theorem C02_gcode_exists :
+  forall ts : list test,
+  forallb test_ok ts = true -> exists gcode : list N -> Z, gcode_ok gcode (map t_group ts).
+Proof. exact gcode_exists. Qed.
+Print Assumptions C02_gcode_exists.
+
+Theorem C02_ex_run_by_theorem :
+  forall (evs0 : list rev) (rest : list Z),
+  src_registry_runAllTests 4 (ex_heap true false (Zpos 3) Z0) evs0
+  (map (fun t : test => b2z (should_run [] ex_nf t)) ex_ts ++ rest) (HPtr 0 Z0) =
+  FOk
+  (tt, after_run true (ex_heap true false (Zpos 3) Z0) 0 [1%nat; 2%nat; 3%nat] (Zpos 3),
+  evs0 ++ rev_all [] ex_nf false (Zpos 77) [1%nat; 2%nat; 3%nat] ex_ts, rest).
+Proof. exact ex_run_by_theorem. Qed.
+Print Assumptions C02_ex_run_by_theorem.
